@@ -165,6 +165,17 @@ claim("C14",
       TRUST + "the harness lexer and the accessor projection; open finding C14-commented-enum-variants-rendered-without-separators",
       "TLA+ grammar acceptor (TLC) validating zlink's rendering and its parse-back for constructor-built descriptions",
       "4/C14")
+claim("C16",
+      "Introspect.tla gives the Varlink type of every supported Rust type expression (VarlinkOf) and the interface "
+      "description a group of derive declarations must add up to (IfaceOf); TLC builds groups covering every row of the "
+      "table (checked by the driver) nested up to four levels, exports them, gen/introspect.py emits the Rust "
+      "declarations with the three derives, the crate is compiled against /repo (a compile failure is a violation), the "
+      "derived constants are assembled into an Interface and projected through zlink's accessors; TLC validates derived = "
+      "IfaceOf(group) and, with the grammar acceptor of Idl.tla, that the interface renders to text of the grammar that "
+      "parses back to an equal description (open C14 finding inherited for doc-commented enum variants).",
+      TRUST + "accessor projection and lexer of harness/src/idl.rs; doc comments written as #[doc = \"...\"]",
+      "TLA+ specification of the Rust -> Varlink type mapping (TLC-built declaration groups) + compiled corpus + TLC validation of derived descriptions",
+      "4/C16")
 claim("C03",
       "JsonSer.tla specifies the compact encoding of the serde data model (Encode, EncodeKey, the key classes, "
       "EscapeOf over code points). TLC enumerates value trees, checks the text is balanced and exports them; each "
